@@ -298,6 +298,7 @@ PLAN["C04"] = {
     "harness_timeout": {"quick": 900, "thorough": 7200},
     "ground": {"units": ["g04_canon.rs"], "quick": ["g04q_"], "thorough": ["g04t_"]},
     "searcher": {"units": ["s04_canon.rs"], "default": "s04_", "timeout": 1800},
+    "kani_escalation": ["c04t_e2e_s_p_n3", "c04t_e2e_s_n_n3", "c04t_e2e_s_npn_n3"],
     "functions": _CANON_FUNCS,
     "assumptions": _CANON_ASSUMED,
     "scope_note": "Verus: unbounded in the sequences and the table contents, n <= 8 in the dispatchers. Ground: exhaustive on the real sequences n = 0..8 (NPN coverage n = 7, 8 in thorough). Kani: every function of n <= 2 (3 thorough).",
@@ -315,6 +316,7 @@ PLAN["C05"] = {
     "harness_timeout": {"quick": 900, "thorough": 7200},
     "ground": {"units": ["g04_canon.rs"], "quick": ["g04q_seq", "g04q_p_closed", "g04q_n_closed", "g04q_npn_closed", "g05q_"], "thorough": ["g05t_"]},
     "searcher": {"units": ["s04_canon.rs"], "default": "s04_", "timeout": 1800},
+    "kani_escalation": ["c04t_e2e_s_p_n3", "c04t_e2e_s_n_n3", "c04t_e2e_s_npn_n3"],
     "functions": _CANON_FUNCS,
     "assumptions": _CANON_ASSUMED,
     "scope_note": "Verus: unbounded in the sequences and table contents, n <= 8. Ground: every step of the real sequences n = 0..8 (NPN n = 8 in thorough). Kani: every function of n <= 2 (3 thorough).",
